@@ -32,25 +32,109 @@ theorem mem_recipients {cfg : Cfg} {v u p : Node} :
     p ∈ recipients cfg v u ↔ p ∈ cfg.fwd v ∧ p ≠ u ∧ some p ≠ cfg.source := by
   simp [recipients, mem_uniq, keep]
 
+theorem mem_recipientsV {cfg : Cfg} {v u p : Node} {orig : List Node} :
+    p ∈ recipientsV cfg v u orig ↔
+      p ∈ cfg.fwd v ∧ p ≠ u ∧ some p ≠ cfg.source ∧ p ∉ orig := by
+  simp [recipientsV, mem_uniq, keep, and_assoc]
+
+theorem recipientsV_sub {cfg : Cfg} {v u p : Node} {orig : List Node}
+    (h : p ∈ recipientsV cfg v u orig) : p ∈ recipients cfg v u := by
+  have := mem_recipientsV.1 h
+  exact mem_recipients.2 ⟨this.1, this.2.1, this.2.2.1⟩
+
 theorem recipients_length_le (cfg : Cfg) (v u : Node) :
     (recipients cfg v u).length ≤ (cfg.fwd v).length := by
   unfold recipients
   exact Nat.le_trans (uniq_length_le _) (List.length_filter_le _ _)
 
-/-! ## case analysis of one reception -/
+theorem recipientsV_length_le (cfg : Cfg) (v u : Node) (orig : List Node) :
+    (recipientsV cfg v u orig).length ≤ (cfg.fwd v).length := by
+  unfold recipientsV
+  exact Nat.le_trans (uniq_length_le _) (List.length_filter_le _ _)
+
+abbrev HeldT := List (Node × (Node × List Node))
+
+theorem lookup_mem {v : Node} {x : Node × List Node} {l : HeldT}
+    (h : l.lookup v = some x) : (v, x) ∈ l := by
+  induction l with
+  | nil => simp [List.lookup] at h
+  | cons e l ih =>
+    obtain ⟨k, b⟩ := e
+    by_cases hk : v = k
+    · subst hk
+      simp [List.lookup] at h
+      subst h
+      exact List.mem_cons_self
+    · have : (v == k) = false := by simpa using hk
+      simp only [List.lookup, this] at h
+      exact List.mem_cons_of_mem _ (ih h)
+
+theorem lookup_none {v : Node} {l : HeldT} (h : l.lookup v = none) :
+    ∀ x, (v, x) ∉ l := by
+  induction l with
+  | nil => intro x hx; cases hx
+  | cons e l ih =>
+    obtain ⟨k, b⟩ := e
+    by_cases hk : v = k
+    · subst hk; simp [List.lookup] at h
+    · have : (v == k) = false := by simpa using hk
+      simp only [List.lookup, this] at h
+      intro x hx
+      rcases List.mem_cons.1 hx with e | hx
+      · exact hk (Prod.mk.inj e).1
+      · exact ih h x hx
+
+theorem mem_noteDup {held : HeldT} {v u : Node} {a : Node} {x : Node × List Node}
+    (h : (a, x) ∈ noteDup held v u) :
+    (a ≠ v ∧ (a, x) ∈ held) ∨ (a = v ∧ ∃ O, x = (x.1, u :: O) ∧ (a, (x.1, O)) ∈ held) := by
+  unfold noteDup at h
+  obtain ⟨e, he, hx⟩ := List.mem_map.1 h
+  obtain ⟨k, u0, O⟩ := e
+  by_cases hk : k = v
+  · simp only [hk, if_true] at hx
+    obtain ⟨rfl, rfl⟩ := Prod.mk.inj hx
+    exact Or.inr ⟨rfl, O, rfl, hk ▸ he⟩
+  · simp only [hk, if_false] at hx
+    obtain ⟨rfl, rfl⟩ := Prod.mk.inj hx
+    exact Or.inl ⟨hk, he⟩
+
+theorem noteDup_key {held : HeldT} {v u a : Node} {x : Node × List Node}
+    (h : (a, x) ∈ held) : ∃ x', (a, x') ∈ noteDup held v u := by
+  unfold noteDup
+  by_cases hk : a = v
+  · exact ⟨(x.1, u :: x.2), List.mem_map.2 ⟨(a, x), h, by simp [hk]⟩⟩
+  · exact ⟨x, List.mem_map.2 ⟨(a, x), h, by simp [hk]⟩⟩
+
+theorem mem_dropKey {held : HeldT} {v a : Node} {x : Node × List Node} :
+    (a, x) ∈ held.filter (fun h => h.1 != v) ↔ (a, x) ∈ held ∧ a ≠ v := by
+  simp [List.mem_filter]
+
+/-! ## case analysis of one step -/
 
 theorem recv_cases (cfg : Cfg) (s : State) (u v : Node) :
     ((u, v) ∉ s.flight ∧ recv cfg s (u, v) = (s, .noflight)) ∨
     ((u, v) ∈ s.flight ∧ (cfg.source = some v ∧ u ≠ v) ∧
-      recv cfg s (u, v) = ({ s with flight := s.flight.erase (u, v) }, .selfOrigin)) ∨
+      recv cfg s (u, v) =
+        ({ s with flight := s.flight.erase (u, v), hist := s.hist ++ [Ev.recvd v u] },
+          .selfOrigin)) ∨
     ((u, v) ∈ s.flight ∧ ¬ (cfg.source = some v ∧ u ≠ v) ∧ v ∈ s.seen ∧
-      recv cfg s (u, v) = ({ s with flight := s.flight.erase (u, v) }, .dup)) ∨
+      recv cfg s (u, v) =
+        ({ s with flight := s.flight.erase (u, v), held := noteDup s.held v u,
+                  hist := s.hist ++ [Ev.recvd v u] }, .dup)) ∨
+    ((u, v) ∈ s.flight ∧ ¬ (cfg.source = some v ∧ u ≠ v) ∧ v ∉ s.seen ∧
+      cfg.validate v = true ∧
+      recv cfg s (u, v) =
+        ({ s with seen := v :: s.seen, flight := s.flight.erase (u, v),
+                  delivered := (v, u) :: s.delivered, held := (v, (u, [])) :: s.held,
+                  hist := s.hist ++ [Ev.recvd v u] }, .hold)) ∨
     ((u, v) ∈ s.flight ∧ ¬ (cfg.source = some v ∧ u ≠ v) ∧ v ∉ s.seen ∧
       recv cfg s (u, v) =
-        ({ seen := v :: s.seen
-           flight := s.flight.erase (u, v) ++ (recipients cfg v u).map fun p => (v, p)
-           delivered := (v, u) :: s.delivered
-           sent := s.sent ++ (recipients cfg v u).map fun p => (v, p) },
+        ({ s with seen := v :: s.seen
+                  flight := s.flight.erase (u, v) ++ (recipients cfg v u).map fun p => (v, p)
+                  delivered := (v, u) :: s.delivered
+                  sent := s.sent ++ (recipients cfg v u).map fun p => (v, p)
+                  hist := s.hist ++ [Ev.recvd v u] ++
+                    (recipients cfg v u).map fun p => Ev.sent v p },
          .first (recipients cfg v u))) := by
   by_cases hf : (u, v) ∈ s.flight
   · by_cases hs : cfg.source = some v ∧ u ≠ v
@@ -63,13 +147,45 @@ theorem recv_cases (cfg : Cfg) (s : State) (u v : Node) :
         refine ⟨hf, hs, hseen, ?_⟩
         simp only [recv, hf, if_true]
         rw [if_neg hs, if_pos hseen]
-      · right; right; right
-        refine ⟨hf, hs, hseen, ?_⟩
-        simp only [recv, hf, if_true]
-        rw [if_neg hs, if_neg hseen]
+      · by_cases hval : cfg.validate v = true
+        · right; right; right; left
+          refine ⟨hf, hs, hseen, hval, ?_⟩
+          simp only [recv, hf, if_true]
+          rw [if_neg hs, if_neg hseen, if_pos hval]
+        · right; right; right; right
+          refine ⟨hf, hs, hseen, ?_⟩
+          simp only [recv, hf, if_true]
+          rw [if_neg hs, if_neg hseen, if_neg hval]
   · left
     refine ⟨hf, ?_⟩
     simp only [recv, hf, if_false]
+
+theorem verdict_cases (cfg : Cfg) (s : State) (v : Node) (a : Verdict) :
+    (s.held.lookup v = none ∧ verdict cfg s v a = (s, .noheld)) ∨
+    (∃ u orig, s.held.lookup v = some (u, orig) ∧ a = .accept ∧
+      verdict cfg s v a =
+        ({ s with held := s.held.filter fun h => h.1 != v
+                  flight := s.flight ++ (recipientsV cfg v u orig).map fun p => (v, p)
+                  sent := s.sent ++ (recipientsV cfg v u orig).map fun p => (v, p)
+                  hist := s.hist ++ (recipientsV cfg v u orig).map fun p => Ev.sent v p },
+          .forwarded (recipientsV cfg v u orig))) ∨
+    (∃ u orig, s.held.lookup v = some (u, orig) ∧ a ≠ .accept ∧
+      verdict cfg s v a =
+        ({ s with held := s.held.filter fun h => h.1 != v, dropped := v :: s.dropped },
+          .dropped)) := by
+  cases hl : s.held.lookup v with
+  | none => left; exact ⟨rfl, by simp only [verdict, hl]⟩
+  | some x =>
+    obtain ⟨u, orig⟩ := x
+    by_cases ha : a = .accept
+    · right; left
+      refine ⟨u, orig, rfl, ha, ?_⟩
+      simp only [verdict, hl]
+      rw [if_pos ha]
+    · right; right
+      refine ⟨u, orig, rfl, ha, ?_⟩
+      simp only [verdict, hl]
+      rw [if_neg ha]
 
 /-! ## the bookkeeping invariant -/
 
@@ -82,6 +198,8 @@ structure Inv (cfg : Cfg) (s : State) : Prop where
   sent_src : ∀ a b, (a, b) ∈ s.sent →
     (a = cfg.pub ∧ b ∈ cfg.recips) ∨ (∃ u, (a, u) ∈ s.delivered ∧ b ∈ recipients cfg a u)
   flight_sent : ∀ l ∈ s.flight, l ∈ s.sent
+  held_del : ∀ v u O, (v, (u, O)) ∈ s.held → (v, u) ∈ s.delivered
+  held_seen : ∀ v u O, (v, (u, O)) ∈ s.held → u ∈ s.seen ∧ ∀ w ∈ O, w ∈ s.seen
 
 theorem inv_publish (cfg : Cfg) : Inv cfg (publish cfg) where
   pub_seen := by simp [publish]
@@ -95,25 +213,99 @@ theorem inv_publish (cfg : Cfg) : Inv cfg (publish cfg) where
     obtain ⟨p, hp, rfl, rfl⟩ := h
     exact Or.inl ⟨rfl, hp⟩
   flight_sent := by intro l h; exact h
+  held_del := by intro v u O h; simp [publish] at h
+  held_seen := by intro v u O h; simp [publish] at h
 
-theorem inv_erase {cfg : Cfg} {s : State} (l : Node × Node) (h : Inv cfg s) :
-    Inv cfg { s with flight := s.flight.erase l } :=
-  { h with flight_sent := fun x hx => h.flight_sent x (List.mem_of_mem_erase hx) }
+/-- the sender of every copy in flight has the id in its duplicate cache -/
+theorem Inv.flight_seen {cfg : Cfg} {s : State} (h : Inv cfg s) {a b : Node}
+    (hab : (a, b) ∈ s.flight) : a ∈ s.seen := by
+  rcases h.sent_src a b (h.flight_sent _ hab) with ⟨rfl, _⟩ | ⟨u, hu, _⟩
+  · exact h.pub_seen
+  · exact h.del_seen a (List.mem_map.2 ⟨(a, u), hu, rfl⟩)
+
+theorem Inv.held_node {cfg : Cfg} {s : State} (h : Inv cfg s) {v u : Node} {O : List Node}
+    (hv : (v, (u, O)) ∈ s.held) : v ∈ s.seen ∧ v ≠ cfg.pub := by
+  have hd := h.held_del v u O hv
+  have hm : v ∈ s.delivered.map Prod.fst := List.mem_map.2 ⟨(v, u), hd, rfl⟩
+  exact ⟨h.del_seen v hm, fun e => h.pub_not_del (e ▸ hm)⟩
 
 theorem inv_recv {cfg : Cfg} {s : State} (l : Node × Node) (h : Inv cfg s) :
     Inv cfg (recv cfg s l).1 := by
   obtain ⟨u, v⟩ := l
-  rcases recv_cases cfg s u v with ⟨_, e⟩ | ⟨_, _, e⟩ | ⟨_, _, _, e⟩ | ⟨hf, _, hns, e⟩
+  rcases recv_cases cfg s u v with ⟨_, e⟩ | ⟨_, _, e⟩ | ⟨hf, _, _, e⟩ | ⟨hf, _, hns, _, e⟩ |
+    ⟨hf, _, hns, e⟩
   · rw [e]; exact h
-  · rw [e]; exact inv_erase _ h
-  · rw [e]; exact inv_erase _ h
+  · rw [e]
+    exact { h with flight_sent := fun x hx => h.flight_sent x (List.mem_of_mem_erase hx) }
+  · rw [e]
+    have hu : u ∈ s.seen := h.flight_seen hf
+    refine { h with flight_sent := fun x hx => h.flight_sent x (List.mem_of_mem_erase hx)
+                    held_del := ?_, held_seen := ?_ }
+    · intro a u0 O hm
+      rcases mem_noteDup hm with ⟨_, hm'⟩ | ⟨_, O', hx, hm'⟩
+      · exact h.held_del a u0 O hm'
+      · exact h.held_del a u0 O' hm'
+    · intro a u0 O hm
+      rcases mem_noteDup hm with ⟨_, hm'⟩ | ⟨_, O', hx, hm'⟩
+      · exact h.held_seen a u0 O hm'
+      · have := h.held_seen a u0 O' hm'
+        have hO : O = u :: O' := (Prod.mk.inj hx).2
+        refine ⟨this.1, ?_⟩
+        intro w hw
+        rw [hO] at hw
+        rcases List.mem_cons.1 hw with rfl | hw
+        · exact hu
+        · exact this.2 w hw
+  · -- hold
+    rw [e]
+    have hvp : v ≠ cfg.pub := fun hv => hns (hv ▸ h.pub_seen)
+    have hvd : v ∉ s.delivered.map Prod.fst := fun hv => hns (h.del_seen v hv)
+    have hu : u ∈ s.seen := h.flight_seen hf
+    refine
+      { pub_seen := List.mem_cons_of_mem _ h.pub_seen
+        seen_del := ?_, del_seen := ?_, pub_not_del := ?_, del_nodup := ?_
+        sent_src := ?_, flight_sent := ?_, held_del := ?_, held_seen := ?_ }
+    · intro a ha
+      rcases List.mem_cons.1 ha with rfl | ha
+      · exact Or.inr (by simp)
+      · rcases h.seen_del a ha with h1 | h1
+        · exact Or.inl h1
+        · exact Or.inr (by simp only [List.map_cons, List.mem_cons]; exact Or.inr h1)
+    · intro a ha
+      simp only [List.map_cons, List.mem_cons] at ha
+      rcases ha with rfl | ha
+      · exact List.mem_cons_self
+      · exact List.mem_cons_of_mem _ (h.del_seen a ha)
+    · simp only [List.map_cons, List.mem_cons, not_or]
+      exact ⟨fun hp => hvp hp.symm, h.pub_not_del⟩
+    · simp only [List.map_cons]
+      exact List.nodup_cons.2 ⟨hvd, h.del_nodup⟩
+    · intro a b hab
+      rcases h.sent_src a b hab with h1 | ⟨w, hw, hb⟩
+      · exact Or.inl h1
+      · exact Or.inr ⟨w, List.mem_cons_of_mem _ hw, hb⟩
+    · intro x hx
+      exact h.flight_sent x (List.mem_of_mem_erase hx)
+    · intro a u0 O hm
+      rcases List.mem_cons.1 hm with e' | hm
+      · obtain ⟨rfl, e2⟩ := Prod.mk.inj e'
+        obtain ⟨rfl, _⟩ := Prod.mk.inj e2
+        exact List.mem_cons_self
+      · exact List.mem_cons_of_mem _ (h.held_del a u0 O hm)
+    · intro a u0 O hm
+      rcases List.mem_cons.1 hm with e' | hm
+      · obtain ⟨rfl, e2⟩ := Prod.mk.inj e'
+        obtain ⟨rfl, rfl⟩ := Prod.mk.inj e2
+        exact ⟨List.mem_cons_of_mem _ hu, fun w hw => by cases hw⟩
+      · have := h.held_seen a u0 O hm
+        exact ⟨List.mem_cons_of_mem _ this.1, fun w hw => List.mem_cons_of_mem _ (this.2 w hw)⟩
   · rw [e]
     have hvp : v ≠ cfg.pub := fun hv => hns (hv ▸ h.pub_seen)
     have hvd : v ∉ s.delivered.map Prod.fst := fun hv => hns (h.del_seen v hv)
     refine
       { pub_seen := List.mem_cons_of_mem _ h.pub_seen
         seen_del := ?_, del_seen := ?_, pub_not_del := ?_, del_nodup := ?_
-        sent_src := ?_, flight_sent := ?_ }
+        sent_src := ?_, flight_sent := ?_, held_del := ?_, held_seen := ?_ }
     · intro a ha
       rcases List.mem_cons.1 ha with rfl | ha
       · exact Or.inr (by simp)
@@ -141,17 +333,49 @@ theorem inv_recv {cfg : Cfg} {s : State} (l : Node × Node) (h : Inv cfg s) :
       rcases List.mem_append.1 hx with hx | hx
       · exact List.mem_append_left _ (h.flight_sent x (List.mem_of_mem_erase hx))
       · exact List.mem_append_right _ hx
+    · intro a u0 O hm
+      exact List.mem_cons_of_mem _ (h.held_del a u0 O hm)
+    · intro a u0 O hm
+      have := h.held_seen a u0 O hm
+      exact ⟨List.mem_cons_of_mem _ this.1, fun w hw => List.mem_cons_of_mem _ (this.2 w hw)⟩
 
-theorem inv_run (cfg : Cfg) (sched : List (Node × Node)) : Inv cfg (run cfg sched) :=
-  Machine.invariant_of_step (recv cfg) (Inv cfg) (fun _ l h => inv_recv l h) sched _
+theorem inv_verdict {cfg : Cfg} {s : State} (v : Node) (a : Verdict) (h : Inv cfg s) :
+    Inv cfg (verdict cfg s v a).1 := by
+  rcases verdict_cases cfg s v a with ⟨_, e⟩ | ⟨u, orig, hl, _, e⟩ | ⟨u, orig, _, _, e⟩
+  · rw [e]; exact h
+  · rw [e]
+    have hm := lookup_mem hl
+    refine { h with sent_src := ?_, flight_sent := ?_, held_del := ?_, held_seen := ?_ }
+    · intro a' b hab
+      rcases List.mem_append.1 hab with hab | hab
+      · exact h.sent_src a' b hab
+      · simp only [List.mem_map, Prod.mk.injEq] at hab
+        obtain ⟨p, hp, rfl, rfl⟩ := hab
+        exact Or.inr ⟨u, h.held_del _ _ _ hm, recipientsV_sub hp⟩
+    · intro x hx
+      rcases List.mem_append.1 hx with hx | hx
+      · exact List.mem_append_left _ (h.flight_sent x hx)
+      · exact List.mem_append_right _ hx
+    · intro a' u0 O hm'
+      exact h.held_del a' u0 O (mem_dropKey.1 hm').1
+    · intro a' u0 O hm'
+      exact h.held_seen a' u0 O (mem_dropKey.1 hm').1
+  · rw [e]
+    refine { h with held_del := ?_, held_seen := ?_ }
+    · intro a' u0 O hm'
+      exact h.held_del a' u0 O (mem_dropKey.1 hm').1
+    · intro a' u0 O hm'
+      exact h.held_seen a' u0 O (mem_dropKey.1 hm').1
+
+theorem inv_step {cfg : Cfg} {s : State} (op : Op) (h : Inv cfg s) :
+    Inv cfg (step cfg s op).1 := by
+  cases op with
+  | recv u v => exact inv_recv (u, v) h
+  | verdict v a => exact inv_verdict v a h
+
+theorem inv_run (cfg : Cfg) (sched : List Op) : Inv cfg (run cfg sched) :=
+  Machine.invariant_of_step (step cfg) (Inv cfg) (fun _ op h => inv_step op h) sched _
     (inv_publish cfg)
-
-/-- the sender of every copy in flight has the id in its duplicate cache -/
-theorem Inv.flight_seen {cfg : Cfg} {s : State} (h : Inv cfg s) {a b : Node}
-    (hab : (a, b) ∈ s.flight) : a ∈ s.seen := by
-  rcases h.sent_src a b (h.flight_sent _ hab) with ⟨rfl, _⟩ | ⟨u, hu, _⟩
-  · exact h.pub_seen
-  · exact h.del_seen a (List.mem_map.2 ⟨(a, u), hu, rfl⟩)
 
 /-- a node delivers from one propagation source only -/
 theorem Inv.del_unique {cfg : Cfg} {s : State} (h : Inv cfg s) {a u u' : Node}
@@ -168,14 +392,207 @@ theorem Inv.del_unique {cfg : Cfg} {s : State} (h : Inv cfg s) {a u u' : Node}
     · exact absurd (List.mem_map.2 ⟨(a, u), h1, by rw [← e2]⟩) hn.1
     · exact ih h1 h2 hn.2
 
+/-! ## the temporal no-echo invariant -/
+
+/-- a node is not its own peer -/
+def NoSelf (cfg : Cfg) : Prop := (∀ v, v ∉ cfg.fwd v) ∧ cfg.pub ∉ cfg.recips
+
+theorem Inv.flight_ne {cfg : Cfg} {s : State} (h : Inv cfg s) (hn : NoSelf cfg) {a b : Node}
+    (hab : (a, b) ∈ s.flight) : a ≠ b := by
+  rcases h.sent_src a b (h.flight_sent _ hab) with ⟨rfl, hb⟩ | ⟨u, _, hb⟩
+  · intro e; exact hn.2 (e ▸ hb)
+  · intro e; exact hn.1 a (e ▸ (mem_recipients.1 hb).1)
+
+theorem rcvdOf_append (a b : List Ev) : rcvdOf (a ++ b) = rcvdOf a ++ rcvdOf b := by
+  induction a with
+  | nil => rfl
+  | cons e a ih => cases e <;> simp [rcvdOf, ih]
+
+theorem rcvdOf_sends (v : Node) (l : List Node) : rcvdOf (l.map fun p => Ev.sent v p) = [] := by
+  induction l with
+  | nil => rfl
+  | cons a l ih => simp [rcvdOf, ih]
+
+theorem noEcho_append (l es : List Ev) : ∀ r,
+    noEcho r (l ++ es) ↔ noEcho r l ∧ noEcho ((rcvdOf l).reverse ++ r) es := by
+  induction l with
+  | nil => intro r; simp [noEcho, rcvdOf]
+  | cons e l ih =>
+    intro r
+    cases e with
+    | recvd v u =>
+      simp only [List.cons_append, noEcho, rcvdOf, List.reverse_cons, List.append_assoc]
+      exact ih _
+    | sent v w =>
+      simp only [List.cons_append, noEcho, rcvdOf, and_assoc]
+      rw [ih r]
+
+theorem noEcho_sends (v : Node) (l : List Node) (r : List (Node × Node)) :
+    noEcho r (l.map fun p => Ev.sent v p) ↔ ∀ w ∈ l, (v, w) ∉ r := by
+  induction l with
+  | nil => simp [noEcho]
+  | cons a l ih => simp [noEcho, ih]
+
+theorem noEcho_snoc_recvd {r : List (Node × Node)} {l : List Ev} (v u : Node)
+    (h : noEcho r l) : noEcho r (l ++ [Ev.recvd v u]) := by
+  rw [noEcho_append]; exact ⟨h, by simp [noEcho]⟩
+
+theorem noEcho_snoc_sends {l : List Ev} (v : Node) (ws : List Node)
+    (h : noEcho [] l) (hw : ∀ w ∈ ws, (v, w) ∉ rcvdOf l) :
+    noEcho [] (l ++ ws.map fun p => Ev.sent v p) := by
+  rw [noEcho_append]
+  refine ⟨h, (noEcho_sends v ws _).2 ?_⟩
+  intro w hw' hm
+  simp only [List.append_nil, List.mem_reverse] at hm
+  exact hw w hw' hm
+
+structure Echo (cfg : Cfg) (s : State) : Prop where
+  ne : noEcho [] s.hist
+  unseen_rc : ∀ v u, (v, u) ∈ rcvdOf s.hist → v ∉ s.seen → cfg.source = some v
+  held_rc : ∀ v u O, (v, (u, O)) ∈ s.held → ∀ w, (v, w) ∈ rcvdOf s.hist → w = u ∨ w ∈ O
+  seen_src : ∀ v ∈ s.seen, v ≠ cfg.pub → cfg.source ≠ some v
+
+theorem echo_publish (cfg : Cfg) : Echo cfg (publish cfg) where
+  ne := by
+    simp only [publish]
+    exact (noEcho_sends _ _ _).2 (fun _ _ h => by cases h)
+  unseen_rc := by intro v u h; simp [publish, rcvdOf_sends] at h
+  held_rc := by intro v u O h; simp [publish] at h
+  seen_src := by intro v hv hne; simp [publish] at hv; exact absurd hv hne
+
+theorem echo_recv {cfg : Cfg} {s : State} (hn : NoSelf cfg) (l : Node × Node)
+    (hi : Inv cfg s) (h : Echo cfg s) : Echo cfg (recv cfg s l).1 := by
+  obtain ⟨u, v⟩ := l
+  rcases recv_cases cfg s u v with ⟨_, e⟩ | ⟨hf, ⟨hso, _⟩, e⟩ | ⟨hf, _, hseen, e⟩ |
+    ⟨hf, hcond, hns, _, e⟩ | ⟨hf, hcond, hns, e⟩
+  · rw [e]; exact h
+  · -- self-origin rejection
+    rw [e]
+    refine { ne := noEcho_snoc_recvd v u h.ne, unseen_rc := ?_, held_rc := ?_,
+             seen_src := h.seen_src }
+    · intro a b hab ha
+      simp only [rcvdOf_append, rcvdOf, List.mem_append, List.mem_singleton] at hab
+      rcases hab with hab | hab
+      · exact h.unseen_rc a b hab ha
+      · obtain ⟨rfl, rfl⟩ := Prod.mk.inj hab; exact hso
+    · intro a u0 O hm w hw
+      simp only [rcvdOf_append, rcvdOf, List.mem_append, List.mem_singleton] at hw
+      rcases hw with hw | hw
+      · exact h.held_rc a u0 O hm w hw
+      · obtain ⟨rfl, rfl⟩ := Prod.mk.inj hw
+        have := hi.held_node hm
+        exact absurd hso (h.seen_src a this.1 this.2)
+  · -- duplicate
+    rw [e]
+    refine { ne := noEcho_snoc_recvd v u h.ne, unseen_rc := ?_, held_rc := ?_,
+             seen_src := h.seen_src }
+    · intro a b hab ha
+      simp only [rcvdOf_append, rcvdOf, List.mem_append, List.mem_singleton] at hab
+      rcases hab with hab | hab
+      · exact h.unseen_rc a b hab ha
+      · obtain ⟨rfl, rfl⟩ := Prod.mk.inj hab; exact absurd hseen ha
+    · intro a u0 O hm w hw
+      simp only [rcvdOf_append, rcvdOf, List.mem_append, List.mem_singleton] at hw
+      rcases mem_noteDup hm with ⟨hav, hm'⟩ | ⟨hav, O', hx, hm'⟩
+      · rcases hw with hw | hw
+        · exact h.held_rc a u0 O hm' w hw
+        · exact absurd (Prod.mk.inj hw).1 hav
+      · have hO : O = u :: O' := (Prod.mk.inj hx).2
+        rcases hw with hw | hw
+        · rcases h.held_rc a u0 O' hm' w hw with h1 | h1
+          · exact Or.inl h1
+          · exact Or.inr (hO ▸ List.mem_cons_of_mem _ h1)
+        · have : w = u := (Prod.mk.inj hw).2
+          exact Or.inr (hO ▸ this ▸ List.mem_cons_self)
+  · -- hold
+    rw [e]
+    have huv : u ≠ v := hi.flight_ne hn hf
+    have hsv : cfg.source ≠ some v := fun hs => hcond ⟨hs, huv⟩
+    refine { ne := noEcho_snoc_recvd v u h.ne, unseen_rc := ?_, held_rc := ?_, seen_src := ?_ }
+    · intro a b hab ha
+      simp only [rcvdOf_append, rcvdOf, List.mem_append, List.mem_singleton] at hab
+      rcases hab with hab | hab
+      · exact h.unseen_rc a b hab (fun hh => ha (List.mem_cons_of_mem _ hh))
+      · obtain ⟨rfl, rfl⟩ := Prod.mk.inj hab; exact absurd List.mem_cons_self ha
+    · intro a u0 O hm w hw
+      simp only [rcvdOf_append, rcvdOf, List.mem_append, List.mem_singleton] at hw
+      rcases List.mem_cons.1 hm with e' | hm
+      · obtain ⟨rfl, e2⟩ := Prod.mk.inj e'
+        obtain ⟨rfl, rfl⟩ := Prod.mk.inj e2
+        rcases hw with hw | hw
+        · exact absurd (h.unseen_rc a w hw hns) hsv
+        · exact Or.inl (Prod.mk.inj hw).2
+      · rcases hw with hw | hw
+        · exact h.held_rc a u0 O hm w hw
+        · have hav : a = v := (Prod.mk.inj hw).1
+          exact absurd (hav ▸ (hi.held_node hm).1) hns
+    · intro a ha hne
+      rcases List.mem_cons.1 ha with rfl | ha
+      · exact hsv
+      · exact h.seen_src a ha hne
+  · -- first receipt, forwarded at once
+    rw [e]
+    have huv : u ≠ v := hi.flight_ne hn hf
+    have hsv : cfg.source ≠ some v := fun hs => hcond ⟨hs, huv⟩
+    refine { ne := ?_, unseen_rc := ?_, held_rc := ?_, seen_src := ?_ }
+    · apply noEcho_snoc_sends v _ (noEcho_snoc_recvd v u h.ne)
+      intro w hw hm
+      simp only [rcvdOf_append, rcvdOf, List.mem_append, List.mem_singleton] at hm
+      rcases hm with hm | hm
+      · exact hsv (h.unseen_rc v w hm hns)
+      · exact (mem_recipients.1 hw).2.1 (Prod.mk.inj hm).2
+    · intro a b hab ha
+      simp only [rcvdOf_append, rcvdOf, rcvdOf_sends, List.append_nil, List.mem_append,
+        List.mem_singleton] at hab
+      rcases hab with hab | hab
+      · exact h.unseen_rc a b hab (fun hh => ha (List.mem_cons_of_mem _ hh))
+      · obtain ⟨rfl, rfl⟩ := Prod.mk.inj hab; exact absurd List.mem_cons_self ha
+    · intro a u0 O hm w hw
+      simp only [rcvdOf_append, rcvdOf, rcvdOf_sends, List.append_nil, List.mem_append,
+        List.mem_singleton] at hw
+      rcases hw with hw | hw
+      · exact h.held_rc a u0 O hm w hw
+      · have hav : a = v := (Prod.mk.inj hw).1
+        exact absurd (hav ▸ (hi.held_node hm).1) hns
+    · intro a ha hne
+      rcases List.mem_cons.1 ha with rfl | ha
+      · exact hsv
+      · exact h.seen_src a ha hne
+
+theorem echo_verdict {cfg : Cfg} {s : State} (v : Node) (a : Verdict)
+    (h : Echo cfg s) : Echo cfg (verdict cfg s v a).1 := by
+  rcases verdict_cases cfg s v a with ⟨_, e⟩ | ⟨u, orig, hl, _, e⟩ | ⟨u, orig, _, _, e⟩
+  · rw [e]; exact h
+  · rw [e]
+    have hm := lookup_mem hl
+    refine { ne := ?_, unseen_rc := ?_, held_rc := ?_, seen_src := h.seen_src }
+    · apply noEcho_snoc_sends v _ h.ne
+      intro w hw hrc
+      have hx := mem_recipientsV.1 hw
+      rcases h.held_rc v u orig hm w hrc with h1 | h1
+      · exact hx.2.1 h1
+      · exact hx.2.2.2 h1
+    · intro a' b hab ha
+      simp only [rcvdOf_append, rcvdOf_sends, List.append_nil] at hab
+      exact h.unseen_rc a' b hab ha
+    · intro a' u0 O hm' w hw
+      simp only [rcvdOf_append, rcvdOf_sends, List.append_nil] at hw
+      exact h.held_rc a' u0 O (mem_dropKey.1 hm').1 w hw
+  · rw [e]
+    exact { h with held_rc := (fun a' u0 O hm' w hw =>
+      h.held_rc a' u0 O (mem_dropKey.1 hm').1 w hw) }
+
 /-! ## the closure invariant (at-least-once) -/
 
 /-- "`b` has the message or a copy is on its way to `b`" -/
 def Covered (s : State) (b : Node) : Prop := b ∈ s.seen ∨ ∃ x, (x, b) ∈ s.flight
 
+/-- `a` is done with the message: it is not awaiting a verdict and was not dropped -/
+def Done (s : State) (a : Node) : Prop := (∀ x, (a, x) ∉ s.held) ∧ a ∉ s.dropped
+
 structure Clo (cfg : Cfg) (s : State) : Prop where
   pubc : ∀ b ∈ cfg.recips, Covered s b
-  fwdc : ∀ a ∈ s.seen, a ≠ cfg.pub → ∀ b ∈ cfg.fwd a, Covered s b
+  fwdc : ∀ a ∈ s.seen, a ≠ cfg.pub → Done s a → ∀ b ∈ cfg.fwd a, Covered s b
 
 theorem clo_publish (cfg : Cfg) : Clo cfg (publish cfg) where
   pubc := by
@@ -198,12 +615,20 @@ theorem covered_step {s s' : State} {u v b : Node}
       have hne : (x, b) ≠ (u, v) := fun e => hb (Prod.mk.inj e).2
       exact (List.mem_erase_of_ne hne).2 hx
 
+theorem covered_mono {s s' : State} {b : Node}
+    (hs : ∀ a ∈ s.seen, a ∈ s'.seen) (hf : ∀ l ∈ s.flight, l ∈ s'.flight)
+    (h : Covered s b) : Covered s' b := by
+  rcases h with h | ⟨x, hx⟩
+  · exact Or.inl (hs b h)
+  · exact Or.inr ⟨x, hf _ hx⟩
+
 theorem clo_recv {cfg : Cfg} {s : State} (hsrc : sourceOk cfg = true) (l : Node × Node)
     (hi : Inv cfg s) (h : Clo cfg s) : Clo cfg (recv cfg s l).1 := by
   obtain ⟨u, v⟩ := l
   have hsrc' : cfg.source = none ∨ cfg.source = some cfg.pub := by
     simpa [sourceOk] using hsrc
-  rcases recv_cases cfg s u v with ⟨_, e⟩ | ⟨hf, ⟨hso, _⟩, e⟩ | ⟨hf, _, hseen, e⟩ | ⟨hf, _, hns, e⟩
+  rcases recv_cases cfg s u v with ⟨_, e⟩ | ⟨hf, ⟨hso, _⟩, e⟩ | ⟨hf, _, hseen, e⟩ |
+    ⟨hf, _, hns, _, e⟩ | ⟨hf, _, hns, e⟩
   · rw [e]; exact h
   · -- self-origin rejection: only the publisher can take this branch
     rw [e]
@@ -212,28 +637,50 @@ theorem clo_recv {cfg : Cfg} {s : State} (hsrc : sourceOk cfg = true) (l : Node 
       · rw [h0] at hso; cases hso
       · rw [h0] at hso; cases hso; exact hi.pub_seen
     exact
-      { pubc := fun b hb => covered_step (s := s) (u := u) (v := v) (fun _ ha => ha) hv (fun _ hl => hl) (h.pubc b hb)
-        fwdc := fun a ha hne b hb =>
-          covered_step (s := s) (u := u) (v := v) (fun _ ha => ha) hv (fun _ hl => hl) (h.fwdc a ha hne b hb) }
-  · rw [e]
-    exact
-      { pubc := fun b hb => covered_step (s := s) (u := u) (v := v) (fun _ ha => ha) hseen (fun _ hl => hl) (h.pubc b hb)
-        fwdc := fun a ha hne b hb =>
-          covered_step (s := s) (u := u) (v := v) (fun _ ha => ha) hseen (fun _ hl => hl) (h.fwdc a ha hne b hb) }
+      { pubc := fun b hb =>
+          covered_step (s := s) (u := u) (v := v) (fun _ ha => ha) hv (fun _ hl => hl) (h.pubc b hb)
+        fwdc := fun a ha hne hd b hb =>
+          covered_step (s := s) (u := u) (v := v) (fun _ ha => ha) hv (fun _ hl => hl)
+            (h.fwdc a ha hne hd b hb) }
+  · -- duplicate (the set of held nodes is unchanged)
+    rw [e]
+    refine
+      { pubc := fun b hb =>
+          covered_step (s := s) (u := u) (v := v) (fun _ ha => ha) hseen (fun _ hl => hl)
+            (h.pubc b hb)
+        fwdc := fun a ha hne hd b hb =>
+          covered_step (s := s) (u := u) (v := v) (fun _ ha => ha) hseen (fun _ hl => hl)
+            (h.fwdc a ha hne ⟨?_, hd.2⟩ b hb) }
+    intro x hx
+    obtain ⟨x', hx'⟩ := noteDup_key (v := v) (u := u) hx
+    exact hd.1 x' hx'
+  · -- hold: the new node is not `Done`
+    rw [e]
+    refine
+      { pubc := fun b hb =>
+          covered_step (s := s) (u := u) (v := v) (fun _ ha => List.mem_cons_of_mem _ ha)
+            List.mem_cons_self (fun _ hl => hl) (h.pubc b hb)
+        fwdc := ?_ }
+    intro a ha hne hd b hb
+    rcases List.mem_cons.1 ha with rfl | ha
+    · exact absurd List.mem_cons_self (hd.1 (u, []))
+    · exact covered_step (s := s) (u := u) (v := v) (fun _ ha => List.mem_cons_of_mem _ ha)
+        List.mem_cons_self (fun _ hl => hl)
+        (h.fwdc a ha hne ⟨fun x hx => hd.1 x (List.mem_cons_of_mem _ hx), hd.2⟩ b hb)
   · rw [e]
     have step : ∀ b, Covered s b → Covered
-        { seen := v :: s.seen
-          flight := s.flight.erase (u, v) ++ (recipients cfg v u).map fun p => (v, p)
-          delivered := (v, u) :: s.delivered
-          sent := s.sent ++ (recipients cfg v u).map fun p => (v, p) } b :=
+        { s with seen := v :: s.seen
+                 flight := s.flight.erase (u, v) ++ (recipients cfg v u).map fun p => (v, p)
+                 delivered := (v, u) :: s.delivered
+                 sent := s.sent ++ (recipients cfg v u).map fun p => (v, p)
+                 hist := s.hist ++ [Ev.recvd v u] ++
+                   (recipients cfg v u).map fun p => Ev.sent v p } b :=
       fun b hb => covered_step (s := s) (u := u) (v := v) (fun _ ha => List.mem_cons_of_mem _ ha)
         List.mem_cons_self (fun _ hl => List.mem_append_left _ hl) hb
     refine { pubc := fun b hb => step b (h.pubc b hb), fwdc := ?_ }
-    intro a ha hne b hb
+    intro a ha hne hd b hb
     rcases List.mem_cons.1 ha with rfl | ha
-    · -- the newly informed node: every forwarding target is the propagation source (which has
-      -- the message), the source (= the publisher), or receives a copy now
-      by_cases hbu : b = u
+    · by_cases hbu : b = u
       · exact Or.inl (List.mem_cons_of_mem _ (hbu ▸ hi.flight_seen hf))
       · by_cases hbs : some b = cfg.source
         · rcases hsrc' with h0 | h0
@@ -242,7 +689,47 @@ theorem clo_recv {cfg : Cfg} {s : State} (hsrc : sourceOk cfg = true) (l : Node 
             exact Or.inl (List.mem_cons_of_mem _ hi.pub_seen)
         · refine Or.inr ⟨a, List.mem_append_right _ (List.mem_map.2 ⟨b, ?_, rfl⟩)⟩
           exact mem_recipients.2 ⟨hb, hbu, hbs⟩
-    · exact step b (h.fwdc a ha hne b hb)
+    · exact step b (h.fwdc a ha hne hd b hb)
+
+theorem clo_verdict {cfg : Cfg} {s : State} (hsrc : sourceOk cfg = true) (v : Node)
+    (a : Verdict) (hi : Inv cfg s) (h : Clo cfg s) : Clo cfg (verdict cfg s v a).1 := by
+  have hsrc' : cfg.source = none ∨ cfg.source = some cfg.pub := by
+    simpa [sourceOk] using hsrc
+  rcases verdict_cases cfg s v a with ⟨_, e⟩ | ⟨u, orig, hl, _, e⟩ | ⟨u, orig, _, _, e⟩
+  · rw [e]; exact h
+  · rw [e]
+    have hm := lookup_mem hl
+    have mono : ∀ b, Covered s b → Covered
+        { s with held := s.held.filter fun h => h.1 != v
+                 flight := s.flight ++ (recipientsV cfg v u orig).map fun p => (v, p)
+                 sent := s.sent ++ (recipientsV cfg v u orig).map fun p => (v, p)
+                 hist := s.hist ++ (recipientsV cfg v u orig).map fun p => Ev.sent v p } b :=
+      fun b hb => covered_mono (s := s) (fun _ ha => ha) (fun _ hl => List.mem_append_left _ hl) hb
+    refine { pubc := fun b hb => mono b (h.pubc b hb), fwdc := ?_ }
+    intro a' ha hne hd b hb
+    by_cases hav : a' = v
+    · subst hav
+      have hs := hi.held_seen a' u orig hm
+      by_cases hbu : b = u
+      · exact Or.inl (hbu ▸ hs.1)
+      · by_cases hbo : b ∈ orig
+        · exact Or.inl (hs.2 b hbo)
+        · by_cases hbs : some b = cfg.source
+          · rcases hsrc' with h0 | h0
+            · rw [h0] at hbs; cases hbs
+            · rw [h0] at hbs; cases hbs
+              exact Or.inl hi.pub_seen
+          · refine Or.inr ⟨a', List.mem_append_right _ (List.mem_map.2 ⟨b, ?_, rfl⟩)⟩
+            exact mem_recipientsV.2 ⟨hb, hbu, hbs, hbo⟩
+    · refine mono b (h.fwdc a' ha hne ⟨fun x hx => hd.1 x (mem_dropKey.2 ⟨hx, hav⟩), hd.2⟩ b hb)
+  · rw [e]
+    refine { pubc := fun b hb => covered_mono (s := s) (fun _ ha => ha) (fun _ hl => hl) (h.pubc b hb)
+             fwdc := ?_ }
+    intro a' ha hne hd b hb
+    have hav : a' ≠ v := fun e' => hd.2 (e' ▸ List.mem_cons_self)
+    exact covered_mono (s := s) (fun _ ha => ha) (fun _ hl => hl)
+      (h.fwdc a' ha hne ⟨fun x hx => hd.1 x (mem_dropKey.2 ⟨hx, hav⟩),
+        fun hdr => hd.2 (List.mem_cons_of_mem _ hdr)⟩ b hb)
 
 /-! ## reachability -/
 
@@ -255,7 +742,8 @@ inductive Reach (cfg : Cfg) : Node → Prop
   | step {a b : Node} : Reach cfg a → Edge cfg a b → Reach cfg b
 
 theorem reach_seen_of_quiescent {cfg : Cfg} {s : State} (hc : Clo cfg s) (hi : Inv cfg s)
-    (hq : s.flight = []) {v : Node} (hr : Reach cfg v) : v ∈ s.seen := by
+    (hq : s.flight = []) (hh : s.held = []) (hd : s.dropped = []) {v : Node}
+    (hr : Reach cfg v) : v ∈ s.seen := by
   induction hr with
   | pub => exact hi.pub_seen
   | @step a b _ he ih =>
@@ -263,7 +751,12 @@ theorem reach_seen_of_quiescent {cfg : Cfg} {s : State} (hc : Clo cfg s) (hi : I
       unfold Edge edges at he
       by_cases hap : a = cfg.pub
       · rw [if_pos hap] at he; exact hc.pubc b he
-      · rw [if_neg hap] at he; exact hc.fwdc a ih hap b he
+      · rw [if_neg hap] at he
+        have hdone : Done s a := by
+          refine ⟨?_, ?_⟩
+          · intro x hx; rw [hh] at hx; cases hx
+          · intro hx; rw [hd] at hx; cases hx
+        exact hc.fwdc a ih hap hdone b he
     rcases hcov with h | ⟨x, hx⟩
     · exact h
     · rw [hq] at hx; cases hx
